@@ -237,3 +237,750 @@ Proof.
              | (assert (K1 : inTs a b c p) by use4s S1; assert (K2 : inTs a c d p) by use4s S2;
                 destruct K1 as (_ & _ & K1); destruct K2 as (K2 & _ & _); lra) ].
 Qed.
+
+(* ------------------------------------------------------------------ level 1 *)
+Local Open Scope N_scope.
+Ltac rcompute := cbv - [Rplus Rmult Rminus Ropp IZR Rlt Rle Rinv sqrt Rdiv].
+
+Lemma level1_wf cs x y : x < 2 -> y < 2 -> wfU (rtile_at1 cs 0 x y).
+Proof.
+  intros Hx Hy. destruct (bit_cases _ Hx) as [-> | ->], (bit_cases _ Hy) as [-> | ->]; destruct cs;
+    rcompute; split; lra.
+Qed.
+
+(* the four level-1 tiles (eight octants) cover every direction *)
+Lemma level1_cover cs (p : vec) : exists x y, x < 2 /\ y < 2 /\ inU (rtile_at1 cs 0 x y) p.
+Proof.
+  destruct p as [px py pz].
+  destruct cs; destruct (Rle_or_lt 0 px), (Rle_or_lt 0 pz), (Rle_or_lt 0 py).
+  all: first
+    [ exists 0, 0; split; [lia|split; [lia|]]; rcompute; first [left; repeat split; lra | right; repeat split; lra]
+    | exists 1, 0; split; [lia|split; [lia|]]; rcompute; first [left; repeat split; lra | right; repeat split; lra]
+    | exists 0, 1; split; [lia|split; [lia|]]; rcompute; first [left; repeat split; lra | right; repeat split; lra]
+    | exists 1, 1; split; [lia|split; [lia|]]; rcompute; first [left; repeat split; lra | right; repeat split; lra] ].
+Qed.
+
+Lemma level1_disjoint cs x y x' y' p : x < 2 -> y < 2 -> x' < 2 -> y' < 2 ->
+  intU (rtile_at1 cs 0 x y) p -> intU (rtile_at1 cs 0 x' y') p -> x = x' /\ y = y'.
+Proof.
+  intros Hx Hy Hx' Hy'. destruct p as [px py pz].
+  destruct (bit_cases _ Hx) as [-> | ->], (bit_cases _ Hy) as [-> | ->],
+           (bit_cases _ Hx') as [-> | ->], (bit_cases _ Hy') as [-> | ->]; try (intros; split; reflexivity);
+    destruct cs; rcompute; intros [(H1 & H2 & H3)|(H1 & H2 & H3)] [(K1 & K2 & K3)|(K1 & K2 & K3)]; exfalso; lra.
+Qed.
+
+(* ------------------------------------------------------------------ every depth *)
+Lemma wf_all cs : forall m x y, x < 2 ^ N.of_nat (S m) -> y < 2 ^ N.of_nat (S m) -> wfU (rtile_at1 cs m x y).
+Proof.
+  induction m as [|m IH]; intros x y Hx Hy.
+  - apply level1_wf; change (2 ^ N.of_nat 1) with 2 in *; assumption.
+  - rewrite pow2_S in Hx, Hy. cbn [ToastTerm.tile_at1].
+    apply child_wfU; [|apply N.mod_lt; lia|apply N.mod_lt; lia].
+    apply IH; apply N.div_lt_upper_bound; lia.
+Qed.
+
+(* every direction lies in some tile of depth m+1 *)
+Theorem tiles_cover_all cs : forall m p, exists x y,
+  x < 2 ^ N.of_nat (S m) /\ y < 2 ^ N.of_nat (S m) /\ inU (rtile_at1 cs m x y) p.
+Proof.
+  induction m as [|m IH]; intros p.
+  - destruct (level1_cover cs p) as (x & y & Hx & Hy & H). exists x, y. change (2 ^ N.of_nat 1) with 2. auto.
+  - destruct (IH p) as (x & y & Hx & Hy & H).
+    pose proof (children_cover _ p (wf_all cs m x y Hx Hy) H) as Hc.
+    rewrite (pow2_S (S m)).
+    destruct Hc as [K|[K|[K|K]]];
+      [exists (2 * x + 0), (2 * y + 0) | exists (2 * x + 1), (2 * y + 0)
+      | exists (2 * x + 0), (2 * y + 1) | exists (2 * x + 1), (2 * y + 1)];
+      (split; [lia|split; [lia|]]); rewrite tile_at1_child by lia; exact K.
+Qed.
+
+(* a tile lies in its parent *)
+Theorem nesting_step cs m x y p : x < 2 ^ N.of_nat (S (S m)) -> y < 2 ^ N.of_nat (S (S m)) ->
+  inU (rtile_at1 cs (S m) x y) p -> inU (rtile_at1 cs m (x / 2) (y / 2)) p.
+Proof.
+  intros Hx Hy. rewrite pow2_S in Hx, Hy. cbn [ToastTerm.tile_at1].
+  apply child_inside; [|apply N.mod_lt; lia|apply N.mod_lt; lia].
+  apply wf_all; apply N.div_lt_upper_bound; lia.
+Qed.
+
+Lemma desc_wf (t : rtile) : wfU t -> forall k x y, wfU (desc rmid t k x y).
+Proof.
+  intros Hw. induction k as [|k IH]; intros x y; cbn [desc]; [assumption|].
+  apply child_wfU; [apply IH|apply N.mod_lt; lia|apply N.mod_lt; lia].
+Qed.
+
+(* ... and so does every descendant, at any relative depth *)
+Theorem nesting_desc (t : rtile) p : wfU t -> forall k x y, inU (desc rmid t k x y) p -> inU t p.
+Proof.
+  intros Hw. induction k as [|k IH]; intros x y; cbn [desc]; [auto|].
+  intros H. apply (IH (x / 2)%N (y / 2)%N).
+  eapply child_inside; [apply desc_wf; assumption| | |exact H]; apply N.mod_lt; lia.
+Qed.
+
+(* distinct tiles of one depth have disjoint interiors *)
+Theorem tiles_disjoint_all cs : forall m x y x' y' p,
+  x < 2 ^ N.of_nat (S m) -> y < 2 ^ N.of_nat (S m) -> x' < 2 ^ N.of_nat (S m) -> y' < 2 ^ N.of_nat (S m) ->
+  intU (rtile_at1 cs m x y) p -> intU (rtile_at1 cs m x' y') p -> x = x' /\ y = y'.
+Proof.
+  induction m as [|m IH]; intros x y x' y' p Hx Hy Hx' Hy'.
+  - change (2 ^ N.of_nat 1) with 2 in *. apply level1_disjoint; assumption.
+  - rewrite pow2_S in Hx, Hy, Hx', Hy'. cbn [ToastTerm.tile_at1]. intros H H'.
+    assert (Bx : x / 2 < 2 ^ N.of_nat (S m)) by (apply N.div_lt_upper_bound; lia).
+    assert (By : y / 2 < 2 ^ N.of_nat (S m)) by (apply N.div_lt_upper_bound; lia).
+    assert (Bx' : x' / 2 < 2 ^ N.of_nat (S m)) by (apply N.div_lt_upper_bound; lia).
+    assert (By' : y' / 2 < 2 ^ N.of_nat (S m)) by (apply N.div_lt_upper_bound; lia).
+    assert (Mx : x mod 2 < 2) by (apply N.mod_lt; lia). assert (My : y mod 2 < 2) by (apply N.mod_lt; lia).
+    assert (Mx' : x' mod 2 < 2) by (apply N.mod_lt; lia). assert (My' : y' mod 2 < 2) by (apply N.mod_lt; lia).
+    pose proof (child_strict _ _ _ p (wf_all cs m _ _ Bx By) Mx My H) as P.
+    pose proof (child_strict _ _ _ p (wf_all cs m _ _ Bx' By') Mx' My' H') as P'.
+    destruct (IH _ _ _ _ p Bx By Bx' By' P P') as (E1 & E2).
+    rewrite <- E1, <- E2 in H'.
+    destruct (N.eq_dec (x mod 2) (x' mod 2)) as [F1|F1]; destruct (N.eq_dec (y mod 2) (y' mod 2)) as [F2|F2];
+      try (split; lia);
+      exfalso; eapply (siblings_disjoint _ (x mod 2) (y mod 2) (x' mod 2) (y' mod 2) p (wf_all cs m _ _ Bx By));
+      try eassumption; intros Q; injection Q; intros; contradiction.
+Qed.
+
+(* the centre of a tile (the point _subsample writes for a 1 x 1 grid) lies in the tile *)
+Lemma centre_in_tile (t : rtile) : wfU t -> inU t (centre rmid t).
+Proof.
+  destruct t as [pos a b c d inc]. unfold wfU, inU, centre; cbn [c_ul c_ur c_lr c_ll incr].
+  destruct inc; intros (O1 & O2).
+  - destruct (tri_scales a b d O1) as (S0 & _ & _). left. rewrite (rmid_comm d b). unfold rmid, inT.
+    rewrite !det_smid_r. replace (det a b b) with 0%R by vring. replace (det b d b) with 0%R by vring.
+    replace (det b d d) with 0%R by vring. replace (det d a d) with 0%R by vring.
+    replace (det d a b) with (det a b d) by vring. repeat split; nra.
+  - destruct (tri_scales a b c O1) as (_ & S1 & _). left. rewrite (rmid_comm a c). unfold rmid, inT.
+    rewrite !det_smid_r. replace (det a b a) with 0%R by vring. replace (det b c c) with 0%R by vring.
+    replace (det c a c) with 0%R by vring. replace (det c a a) with 0%R by vring.
+    replace (det b c a) with (det a b c) by vring. repeat split; nra.
+Qed.
+
+(* C05: the centre of every descendant lies in the tile *)
+Theorem centre_inside_all cs p k j i : valid p = true -> (1 <= pn p)%nat ->
+  inU (rtile_at cs p) (centre rmid (desc rmid (rtile_at cs p) k j i)).
+Proof.
+  intros Hv Hn.
+  assert (Hw : wfU (rtile_at cs p)).
+  { unfold tile_at. destruct p as [n x y]; cbn [pn px py] in *. destruct n as [|m]; [lia|]. cbn [pred].
+    apply valid_iff in Hv; cbn [pn px py] in Hv. apply wf_all; tauto. }
+  apply (nesting_desc _ _ Hw k j i). apply centre_in_tile. apply desc_wf. assumption.
+Qed.
+
+(* evaluation respects commutativity of Mid, so term-level statements "up to ~" are equalities in R^3 *)
+Lemma eval_peq a b : peq a b -> eval a = eval b.
+Proof.
+  induction 1; cbn [eval]; try congruence.
+  - apply rmid_comm.
+Qed.
+
+(* C05: the sky position of pixel (row i, column j) of toast_tile_get_coords, evaluated in R^3,
+   is the centre of the tile eight levels deeper and lies in the tile *)
+Theorem pixel_is_centre_real cs p i j : (1 <= pn p)%nat -> i < 256 -> j < 256 ->
+  eval (tile_coords Mid (tile_at Base Mid cs p) i j) =
+  centre rmid (rtile_at cs (mkPos (8 + pn p) (256 * px p + j) (256 * py p + i))).
+Proof.
+  intros Hn Hi Hj.
+  rewrite (eval_peq _ _ (tile_coords_is_centres cs p i j Hn Hi Hj)).
+  rewrite (gmap_centre pt vec Mid rmid eval (fun a b => eq_refl)).
+  rewrite eval_tile_at. reflexivity.
+Qed.
+
+Theorem pixel_in_tile cs p i j : valid p = true -> (1 <= pn p)%nat -> i < 256 -> j < 256 ->
+  inU (rtile_at cs p) (eval (tile_coords Mid (tile_at Base Mid cs p) i j)).
+Proof.
+  intros Hv Hn Hi Hj. rewrite pixel_is_centre_real by assumption.
+  change 256 with (2 ^ N.of_nat 8) in *.
+  rewrite (tile_at_desc vec rbase rmid cs p 8 j i Hn Hj Hi).
+  apply centre_inside_all; assumption.
+Qed.
+
+(* ------------------------------------------------------------------ convex quadrilaterals *)
+(* toast.py:234-244: the code's containment test for depth >= 2 is four half-spaces.  It
+   coincides with the union of the two triangles because TOAST tiles are convex at the ends
+   of their diagonal; that is where the corners being UNIT vectors matters. *)
+Local Open Scope R_scope.
+
+Definition inQ (t : rtile) (p : vec) : Prop :=
+  0 <= det (c_ul t) (c_ur t) p /\ 0 <= det (c_ur t) (c_lr t) p /\
+  0 <= det (c_lr t) (c_ll t) p /\ 0 <= det (c_ll t) (c_ul t) p.
+
+Definition unit (v : vec) : Prop := norm2 v = 1.
+
+Definition wfQ (t : rtile) : Prop :=
+  unit (c_ul t) /\ unit (c_ur t) /\ unit (c_lr t) /\ unit (c_ll t) /\ wfU t /\
+  0 <= det (c_ul t) (c_ur t) (c_ll t) /\ 0 <= det (c_ur t) (c_lr t) (c_ll t) /\
+  0 <= det (c_lr t) (c_ll t) (c_ul t) /\ 0 <= det (c_ul t) (c_ur t) (c_lr t).
+
+Lemma inQ_inU t p : inQ t p -> inU t p.
+Proof.
+  destruct t as [pos a b c d inc]. unfold inQ, inU, inT; cbn [c_ul c_ur c_lr c_ll incr].
+  intros (H1 & H2 & H3 & H4). destruct inc.
+  - assert (E : det d b p = - det b d p) by vring.
+    destruct (Rle_or_lt 0 (det b d p)); [left|right]; repeat split; lra.
+  - assert (E : det a c p = - det c a p) by vring.
+    destruct (Rle_or_lt 0 (det c a p)); [left|right]; repeat split; lra.
+Qed.
+
+Lemma inU_inQ t p : wfQ t -> inU t p -> inQ t p.
+Proof.
+  destruct t as [pos a b c d inc]. unfold wfQ, wfU, inQ, inU; cbn [c_ul c_ur c_lr c_ll incr].
+  intros (_ & _ & _ & _ & Hw & D1 & D2 & D3 & D4).
+  assert (Z1 : forall x y : vec, det x y x = 0) by (intros; vring).
+  assert (Z2 : forall x y : vec, det x y y = 0) by (intros; vring).
+  assert (C1 : det b c a = det a b c) by vring. assert (C2 : det c d b = det b c d) by vring.
+  assert (C3 : det d a b = det a b d) by vring. assert (C4 : det d a c = det c d a) by vring.
+  assert (C5 : det c a b = det a b c) by vring. assert (C6 : det d b c = det b c d) by vring.
+  assert (C7 : det a c d = det c d a) by vring. assert (C8 : det b d a = det a b d) by vring.
+  destruct inc; destruct Hw as (O1 & O2); intros [H|H]; pose proof H as (H1 & H2 & H3); repeat split; try assumption.
+  all: first [ apply (cone_in_halfspace _ _ _ _ _ p O1 H) | apply (cone_in_halfspace _ _ _ _ _ p O2 H) ];
+    rewrite ?Z1, ?Z2, ?C1, ?C2, ?C3, ?C4, ?C5, ?C6, ?C7, ?C8; lra.
+Qed.
+
+(* four unit vectors: each of the four corner determinants is at most the sum of the others *)
+Lemma unit_dot_le u v : unit u -> unit v -> dot u v <= 1 /\ - dot u v <= 1.
+Proof.
+  unfold unit, norm2, dot. intros Hu Hv.
+  pose proof (Rle_0_sqr (vx u - vx v)). pose proof (Rle_0_sqr (vy u - vy v)). pose proof (Rle_0_sqr (vz u - vz v)).
+  pose proof (Rle_0_sqr (vx u + vx v)). pose proof (Rle_0_sqr (vy u + vy v)). pose proof (Rle_0_sqr (vz u + vz v)).
+  unfold Rsqr in *. split; nra.
+Qed.
+
+Lemma norm_triangle u v w z al be ga de :
+  unit u -> unit v -> unit w -> unit z -> 0 <= al -> 0 <= be -> 0 <= ga -> 0 <= de ->
+  de * vx z = al * vx u + be * vx v - ga * vx w ->
+  de * vy z = al * vy u + be * vy v - ga * vy w ->
+  de * vz z = al * vz u + be * vz v - ga * vz w ->
+  de <= al + be + ga.
+Proof.
+  intros Hu Hv Hw Hz Ha Hb Hg Hd Ex Ey Ez.
+  destruct (unit_dot_le u v Hu Hv) as (B1 & _).
+  destruct (unit_dot_le u w Hu Hw) as (_ & B2).
+  destruct (unit_dot_le v w Hv Hw) as (_ & B3).
+  assert (Sq : de * de = al * al + be * be + ga * ga + 2 * (al * be) * dot u v - 2 * (al * ga) * dot u w - 2 * (be * ga) * dot v w).
+  { unfold unit, norm2, dot in *.
+    replace (de * de) with (de * de * (vx z * vx z + vy z * vy z + vz z * vz z)) by (rewrite Hz; ring).
+    replace (de * de * (vx z * vx z + vy z * vy z + vz z * vz z))
+      with ((de * vx z) * (de * vx z) + (de * vy z) * (de * vy z) + (de * vz z) * (de * vz z)) by ring.
+    rewrite Ex, Ey, Ez.
+    replace (al * al) with (al * al * (vx u * vx u + vy u * vy u + vz u * vz u)) by (rewrite Hu; ring).
+    replace (be * be) with (be * be * (vx v * vx v + vy v * vy v + vz v * vz v)) by (rewrite Hv; ring).
+    replace (ga * ga) with (ga * ga * (vx w * vx w + vy w * vy w + vz w * vz w)) by (rewrite Hw; ring).
+    ring. }
+  assert (P1 : 0 <= al * be) by (apply Rmult_le_pos; assumption).
+  assert (P2 : 0 <= al * ga) by (apply Rmult_le_pos; assumption).
+  assert (P3 : 0 <= be * ga) by (apply Rmult_le_pos; assumption).
+  assert (Q1 : (al * be) * dot u v <= al * be) by nra.
+  assert (Q2 : (al * ga) * (- dot u w) <= al * ga) by nra.
+  assert (Q3 : (be * ga) * (- dot v w) <= be * ga) by nra.
+  assert (Le : de * de <= (al + be + ga) * (al + be + ga)) by nra.
+  destruct (Rle_or_lt de (al + be + ga)) as [|Hlt]; [assumption|exfalso].
+  assert (0 <= al + be + ga) by lra.
+  assert ((al + be + ga) * (al + be + ga) < de * de) by nra. lra.
+Qed.
+
+Lemma corner_dets_bounded a b c d :
+  unit a -> unit b -> unit c -> unit d ->
+  0 <= det a b d -> 0 <= det b c d -> 0 <= det c d a -> 0 <= det a b c ->
+  det a b c <= det a b d + det b c d + det c d a /\
+  det c d a <= det a b d + det b c d + det a b c /\
+  det b c d <= det c d a + det a b c + det a b d /\
+  det a b d <= det c d a + det a b c + det b c d.
+Proof.
+  intros Ua Ub Uc Ud D1 D2 D3 D4. repeat split.
+  - (* D4 d = D2 a + D1 c - D3 b *)
+    pose proof (norm_triangle a c b d (det b c d) (det a b d) (det c d a) (det a b c) Ua Uc Ub Ud D2 D1 D3 D4) as H.
+    assert (K : det a b c <= det b c d + det a b d + det c d a) by (apply H; vring). lra.
+  - (* D3 b = D2 a + D1 c - D4 d *)
+    pose proof (norm_triangle a c d b (det b c d) (det a b d) (det a b c) (det c d a) Ua Uc Ud Ub D2 D1 D4 D3) as H.
+    assert (K : det c d a <= det b c d + det a b d + det a b c) by (apply H; vring). lra.
+  - (* D2 a = D3 b + D4 d - D1 c *)
+    pose proof (norm_triangle b d c a (det c d a) (det a b c) (det a b d) (det b c d) Ub Ud Uc Ua D3 D4 D1 D2) as H.
+    assert (K : det b c d <= det c d a + det a b c + det a b d) by (apply H; vring). lra.
+  - (* D1 c = D3 b + D4 d - D2 a *)
+    pose proof (norm_triangle b d a c (det c d a) (det a b c) (det b c d) (det a b d) Ub Ud Ua Uc D3 D4 D2 D1) as H.
+    assert (K : det a b d <= det c d a + det a b c + det b c d) by (apply H; vring). lra.
+Qed.
+
+Lemma det_vscale_l s x y z : det (vscale s x) y z = s * det x y z. Proof. vring. Qed.
+Lemma det_vscale_m s x y z : det x (vscale s y) z = s * det x y z. Proof. vring. Qed.
+Lemma det_vscale_r s x y z : det x y (vscale s z) = s * det x y z. Proof. vring. Qed.
+
+Lemma rmid_unit x y : 0 < norm2 (vadd x y) -> unit (rmid x y).
+Proof.
+  intros Hn. unfold unit, rmid, smid, inv_norm.
+  replace (norm2 (vscale (/ sqrt (norm2 (vadd x y))) (vadd x y)))
+    with (/ sqrt (norm2 (vadd x y)) * / sqrt (norm2 (vadd x y)) * norm2 (vadd x y)) by vring.
+  set (n := norm2 (vadd x y)) in *.
+  assert (Hs : sqrt n * sqrt n = n) by (apply sqrt_sqrt; lra).
+  assert (Hp : 0 < sqrt n) by (apply sqrt_lt_R0; assumption).
+  rewrite <- Hs at 3. field. lra.
+Qed.
+
+Lemma rmid_unit_det x y z : det x y z <> 0 -> unit (rmid x y).
+Proof. intros H. apply rmid_unit. eapply norm2_add_pos; eassumption. Qed.
+
+Ltac scale_out :=
+  unfold rmid, smid; rewrite ?det_vscale_l, ?det_vscale_m, ?det_vscale_r;
+  repeat (apply Rmult_le_pos; [lra|]).
+
+Ltac corner_cand a b c d X :=
+  first [ replace X with (det a b d) by vring; lra
+        | replace X with (det b c d) by vring; lra
+        | replace X with (det c d a) by vring; lra
+        | replace X with (det a b c) by vring; lra
+        | replace X with (2 * det a b d) by vring; lra
+        | replace X with (2 * det b c d) by vring; lra
+        | replace X with (2 * det c d a) by vring; lra
+        | replace X with (2 * det a b c) by vring; lra
+        | replace X with (det a b d + det b c d + det c d a - det a b c) by vring; lra
+        | replace X with (det a b d + det b c d + det a b c - det c d a) by vring; lra
+        | replace X with (det c d a + det a b c + det a b d - det b c d) by vring; lra
+        | replace X with (det c d a + det a b c + det b c d - det a b d) by vring; lra ].
+
+Lemma child_wfQ (t : rtile) ix iy : wfQ t -> (ix < 2)%N -> (iy < 2)%N -> wfQ (rchild t ix iy).
+Proof.
+  intros Hq Hx Hy.
+  assert (HwU : wfU (rchild t ix iy)) by (apply child_wfU; [apply Hq|assumption|assumption]).
+  revert HwU.
+  destruct (bit_cases _ Hx) as [-> | ->], (bit_cases _ Hy) as [-> | ->];
+    destruct t as [pos a b c d inc];
+    rewrite ?child_00, ?child_10, ?child_01, ?child_11; unfold wfQ, wfU, ce_of in *; cbn [c_ul c_ur c_lr c_ll incr] in *;
+    destruct Hq as (Ua & Ub & Uc & Ud & Hw & D1 & D2 & D3 & D4);
+    destruct (corner_dets_bounded a b c d Ua Ub Uc Ud D1 D2 D3 D4) as (B4 & B3 & B2 & B1);
+    destruct inc; destruct Hw as (O1 & O2); intros HwU.
+  all: try (destruct (tri_scales a b d O1) as (Sbd & Sda & Sab); destruct (tri_scales b c d O2) as (Scd & Sdb & Sbc);
+            assert (Ute : unit (rmid a b)) by (apply (rmid_unit_det a b d); lra);
+            assert (Uri : unit (rmid b c)) by (apply (rmid_unit_det b c d); lra);
+            assert (Ubo : unit (rmid c d)) by (apply (rmid_unit_det c d b); replace (det c d b) with (det b c d) by vring; lra);
+            assert (Ule : unit (rmid d a)) by (apply (rmid_unit_det d a b); replace (det d a b) with (det a b d) by vring; lra);
+            assert (Uce : unit (rmid d b)) by (apply (rmid_unit_det d b c); replace (det d b c) with (det b c d) by vring; lra)).
+  all: try (destruct (tri_scales a b c O1) as (Sbc & Sca & Sab); destruct (tri_scales a c d O2) as (Scd & Sda & Sac);
+            assert (Ute : unit (rmid a b)) by (apply (rmid_unit_det a b c); lra);
+            assert (Uri : unit (rmid b c)) by (apply (rmid_unit_det b c a); replace (det b c a) with (det a b c) by vring; lra);
+            assert (Ubo : unit (rmid c d)) by (apply (rmid_unit_det c d a); replace (det c d a) with (det a c d) by vring; lra);
+            assert (Ule : unit (rmid d a)) by (apply (rmid_unit_det d a c); replace (det d a c) with (det a c d) by vring; lra);
+            assert (Uce : unit (rmid a c)) by (apply (rmid_unit_det a c d); lra)).
+  all: repeat split; try assumption; try apply HwU.
+  all: scale_out;
+       match goal with |- 0 <= ?X => corner_cand a b c d X end.
+Qed.
+
+(* ------------------------------------------------------------------ the point lookup over R *)
+(* toast.py:158-170 *)
+Definition xyz (lat lon : R) : vec := mkV (cos lon * cos lat) (sin lat) (sin lon * cos lat).
+
+(* toast.py:174-188 / 234-244: sum over the four edges of min(det, 0) *)
+Definition rscore (p : vec) (t : rtile) : R :=
+  Rmin (det (c_ul t) (c_ur t) p) 0 + Rmin (det (c_ur t) (c_lr t) p) 0 +
+  Rmin (det (c_lr t) (c_ll t) p) 0 + Rmin (det (c_ll t) (c_ul t) p) 0.
+
+Lemma Rmin0_le x : Rmin x 0 <= 0.
+Proof. apply Rmin_r. Qed.
+Lemma Rmin0_zero x : Rmin x 0 = 0 <-> 0 <= x.
+Proof.
+  unfold Rmin. destruct (Rle_dec x 0); split; intros; lra.
+Qed.
+
+Lemma rscore_zero p t : rscore p t = 0 <-> inQ t p.
+Proof.
+  unfold rscore, inQ.
+  pose proof (Rmin0_le (det (c_ul t) (c_ur t) p)). pose proof (Rmin0_le (det (c_ur t) (c_lr t) p)).
+  pose proof (Rmin0_le (det (c_lr t) (c_ll t) p)). pose proof (Rmin0_le (det (c_ll t) (c_ul t) p)).
+  rewrite <- !Rmin0_zero. split; [intros; repeat split; lra|intros (A & B & C & D); lra].
+Qed.
+
+(* float comparisons "== 0.0" and ">" on exact reals *)
+Definition is0R (s : R) : bool := if Req_EM_T s 0 then true else false.
+Definition gtbR (a b : R) : bool := if Rlt_dec b a then true else false.
+
+Lemma is0R_true s : is0R s = true <-> s = 0.
+Proof. unfold is0R. destruct (Req_EM_T s 0); split; intros; try assumption; try reflexivity; try discriminate; contradiction. Qed.
+
+(* toast.py:223-232, the interval of a longitude in [0, 2 pi] *)
+Definition quad (l : R) : N :=
+  if Rle_dec l (PI / 2) then 0%N
+  else if Rle_dec l PI then 1%N
+  else if Rlt_dec l (3 * (PI / 2)) then 2%N
+  else 3%N.
+
+(* _toast_tile_containment_score(tile, lat, lon): by tile.pos.n.  [l1] is the longitude handed
+   to the level-1 test, [p] the point used by the half-space test *)
+Definition score_R (l1 : R) (p : vec) (t : rtile) : R :=
+  match pn (tpos t) with
+  | O => 0
+  | S O => if level1_hit_coded (quad l1) t then 0 else -100
+  | _ => rscore p t
+  end.
+
+(* lon % TWOPI *)
+Definition rmod2pi (l : R) : R := l - IZR (Int_part (l / (2 * PI))) * (2 * PI).
+
+Definition shiftR (cs : coordsys) : R := match cs with Astro => 0 | Planet => PI end.
+
+(* toast_tile_for_point as it stands (level-1 test on lon itself) ... *)
+Definition lookup_R_coded (cs : coordsys) (depth : nat) (lat lon : R) : option rtile :=
+  let l0 := rmod2pi lon in
+  lookup rbase rmid is0R gtbR (score_R l0 (xyz lat l0)) cs depth.
+(* ... and repaired (fixes/C12-1.patch: level-1 test on (lon + pi) % 2 pi for the planetary system) *)
+Definition lookup_R (cs : coordsys) (depth : nat) (lat lon : R) : option rtile :=
+  let l0 := rmod2pi lon in
+  let l1 := match cs with Astro => l0 | Planet => rmod2pi (l0 + PI) end in
+  lookup rbase rmid is0R gtbR (score_R l1 (xyz lat l0)) cs depth.
+
+Lemma rmod2pi_range l : 0 <= rmod2pi l < 2 * PI.
+Proof.
+  unfold rmod2pi. pose proof PI_RGT_0 as Hpi.
+  destruct (base_Int_part (l / (2 * PI))) as (H1 & H2).
+  assert (E : l = l / (2 * PI) * (2 * PI)) by (field; lra).
+  set (k := IZR (Int_part (l / (2 * PI)))) in *. set (q := l / (2 * PI)) in *.
+  split; rewrite E at 1; nra.
+Qed.
+
+Lemma Int_part_unique r z : r - 1 < IZR z <= r -> z = Int_part r.
+Proof.
+  intros (H1 & H2). unfold Int_part.
+  assert (E : (z + 1)%Z = up r) by (apply tech_up; rewrite plus_IZR; lra). lia.
+Qed.
+
+Lemma rmod2pi_period l (k : Z) : rmod2pi (l + IZR k * (2 * PI)) = rmod2pi l.
+Proof.
+  unfold rmod2pi. pose proof PI_RGT_0 as Hpi.
+  replace ((l + IZR k * (2 * PI)) / (2 * PI)) with (l / (2 * PI) + IZR k) by (field; lra).
+  assert (E : Int_part (l / (2 * PI) + IZR k) = (Int_part (l / (2 * PI)) + k)%Z).
+  { symmetry. apply Int_part_unique. rewrite plus_IZR.
+    destruct (base_Int_part (l / (2 * PI))) as (H1 & H2). lra. }
+  rewrite E, plus_IZR. ring.
+Qed.
+
+(* zero-score children are found *)
+Lemma pick_child_finds_zero (score : rtile -> R) : forall l best cur,
+  (exists c, In c l /\ is0R (score c) = true) ->
+  is0R (score (pick_child is0R gtbR score l best cur)) = true.
+Proof.
+  induction l as [|c l IH]; intros best cur (c0 & Hin & Hz); [destruct Hin|].
+  cbn [pick_child]. destruct (is0R (score c)) eqn:E; [assumption|].
+  destruct Hin as [<-|Hin]; [congruence|].
+  destruct best as [bs|]; [destruct (gtbR (score c) bs)|]; apply IH; exists c0; auto.
+Qed.
+
+(* ---- the descent keeps the point inside (exact arithmetic) *)
+Definition Jinv (p : vec) (t : rtile) : Prop := wfQ t /\ inU t p /\ (1 <= pn (tpos t))%nat.
+
+Lemma score_R_deep l1 p (t : rtile) : (2 <= pn (tpos t))%nat -> score_R l1 p t = rscore p t.
+Proof. unfold score_R. destruct (pn (tpos t)) as [|[|n]]; intros; try lia; reflexivity. Qed.
+
+Lemma descent_step l1 p (t : rtile) : Jinv p t ->
+  Jinv p (pick_child is0R gtbR (score_R l1 p) (div4 rmid t) None t).
+Proof.
+  intros (Hq & Hin & Hn).
+  assert (Hex : exists c, In c (div4 rmid t) /\ is0R (score_R l1 p c) = true).
+  { pose proof (children_cover t p (proj1 (proj2 (proj2 (proj2 (proj2 Hq))))) Hin) as Hc.
+    assert (F : forall ix iy, (ix < 2)%N -> (iy < 2)%N -> inU (rchild t ix iy) p ->
+                exists c, In c (div4 rmid t) /\ is0R (score_R l1 p c) = true).
+    { intros ix iy Hx Hy K. exists (rchild t ix iy). split; [apply child_in; assumption|].
+      apply is0R_true. rewrite score_R_deep by (rewrite child_pos by assumption; cbn [pn]; lia).
+      apply rscore_zero. apply inU_inQ; [apply child_wfQ; assumption|assumption]. }
+    destruct Hc as [K|[K|[K|K]]]; eapply F; try eassumption; lia. }
+  pose proof (pick_child_finds_zero (score_R l1 p) (div4 rmid t) None t Hex) as Hz.
+  destruct (in_div4 vec rmid _ _ (pick_step_in vec rmid R is0R gtbR (score_R l1 p) t)) as (ix & iy & Hx & Hy & E).
+  rewrite E in *. unfold Jinv. split; [apply child_wfQ; assumption|]. split.
+  - apply inQ_inU. apply rscore_zero. rewrite <- (score_R_deep l1) by (rewrite child_pos by assumption; cbn [pn]; lia).
+    apply is0R_true. assumption.
+  - rewrite child_pos by assumption. cbn [pn]. lia.
+Qed.
+
+Lemma descent_all l1 p : forall d (t : rtile), Jinv p t ->
+  Jinv p (lookup_desc rmid is0R gtbR (score_R l1 p) d t).
+Proof.
+  induction d as [|d IH]; intros t Ht; cbn [lookup_desc]; [assumption|].
+  apply IH. apply descent_step. assumption.
+Qed.
+
+(* ---- level 1 *)
+Lemma is0R_0 : is0R 0 = true.
+Proof. apply is0R_true. reflexivity. Qed.
+Lemma is0R_m100 : is0R (-100) = false.
+Proof. unfold is0R. destruct (Req_EM_T (-100) 0); [lra|reflexivity]. Qed.
+
+Lemma level1_pick_R cs l1 p :
+  pick_first0 is0R (score_R l1 p) (level1 rbase cs) (l1_default rbase cs) = level1_pick rbase cs (quad l1).
+Proof.
+  unfold level1_pick, level1. cbn [pick_first0]. unfold score_R; cbn [tpos pn].
+  repeat match goal with
+         | |- context [level1_hit_coded ?q ?t] =>
+             destruct (level1_hit_coded q t); rewrite ?is0R_0, ?is0R_m100; try reflexivity
+         end.
+Qed.
+
+Definition sgn_ok (q : N) (X Z : R) : Prop :=
+  match q with
+  | 0%N => 0 <= X /\ 0 <= Z
+  | 1%N => X <= 0 /\ 0 <= Z
+  | 2%N => X <= 0 /\ Z <= 0
+  | _ => 0 <= X /\ Z <= 0
+  end.
+
+Lemma level1_wfQ cs q : (q < 4)%N -> wfQ (level1_pick rbase cs q) /\ pn (tpos (level1_pick rbase cs q)) = 1%nat.
+Proof.
+  intros Hq. assert (q = 0 \/ q = 1 \/ q = 2 \/ q = 3)%N as [-> | [-> | [-> | ->]]] by lia; destruct cs;
+    (split; [|reflexivity]); rcompute; repeat split; lra.
+Qed.
+
+Lemma level1_pick_contains cs q X Y Z : (q < 4)%N ->
+  sgn_ok ((q + lshift cs) mod 4)%N X Z -> inU (level1_pick rbase cs q) (mkV X Y Z).
+Proof.
+  intros Hq. assert (q = 0 \/ q = 1 \/ q = 2 \/ q = 3)%N as [-> | [-> | [-> | ->]]] by lia; destruct cs;
+    rcompute; intros (H1 & H2); destruct (Rle_or_lt 0 Y);
+    first [left; repeat split; lra | right; repeat split; lra].
+Qed.
+
+Lemma quad_lt4 l : (quad l < 4)%N.
+Proof. unfold quad. destruct (Rle_dec l (PI / 2)), (Rle_dec l PI), (Rlt_dec l (3 * (PI / 2))); lia. Qed.
+
+Lemma quad_signs l : 0 <= l < 2 * PI -> sgn_ok (quad l) (cos l) (sin l).
+Proof.
+  intros (H0 & H2). pose proof PI_RGT_0 as Hpi. unfold quad, sgn_ok.
+  destruct (Rle_dec l (PI / 2)) as [A|A].
+  - split; [apply cos_ge_0; lra|apply sin_ge_0; lra].
+  - destruct (Rle_dec l PI) as [B|B].
+    + split; [apply cos_le_0; lra|apply sin_ge_0; lra].
+    + destruct (Rlt_dec l (3 * (PI / 2))) as [C|C].
+      * split; [apply cos_le_0; lra|apply sin_le_0; lra].
+      * split; [apply cos_ge_0_3PI2; lra|apply sin_le_0; lra].
+Qed.
+
+(* periodicity of cos and sin over integer multiples of 2 pi *)
+Lemma cos_sin_period_Z x (k : Z) : cos (x + IZR k * (2 * PI)) = cos x /\ sin (x + IZR k * (2 * PI)) = sin x.
+Proof.
+  destruct (Z_le_gt_dec 0 k) as [Hk|Hk].
+  - rewrite <- (Z2Nat.id k Hk), <- INR_IZR_INZ.
+    replace (x + INR (Z.to_nat k) * (2 * PI)) with (x + 2 * INR (Z.to_nat k) * PI) by ring.
+    split; [apply cos_period|apply sin_period].
+  - assert (Hk' : (0 <= - k)%Z) by lia.
+    set (y := x + IZR k * (2 * PI)).
+    replace x with (y + 2 * INR (Z.to_nat (- k)) * PI).
+    + rewrite cos_period, sin_period. split; reflexivity.
+    + unfold y. rewrite INR_IZR_INZ, (Z2Nat.id _ Hk'), opp_IZR. ring.
+Qed.
+
+Lemma rmod2pi_trig l : cos (rmod2pi l) = cos l /\ sin (rmod2pi l) = sin l.
+Proof.
+  unfold rmod2pi.
+  replace (l - IZR (Int_part (l / (2 * PI))) * (2 * PI)) with (l + IZR (- Int_part (l / (2 * PI))) * (2 * PI))
+    by (rewrite opp_IZR; ring).
+  apply cos_sin_period_Z.
+Qed.
+
+Lemma xyz_rmod lat lon : xyz lat (rmod2pi lon) = xyz lat lon.
+Proof. unfold xyz. destruct (rmod2pi_trig lon) as (-> & ->). reflexivity. Qed.
+
+Lemma level1_contains cs lat lon : - (PI / 2) <= lat <= PI / 2 ->
+  let l0 := rmod2pi lon in
+  let l1 := match cs with Astro => l0 | Planet => rmod2pi (l0 + PI) end in
+  inU (level1_pick rbase cs (quad l1)) (xyz lat l0).
+Proof.
+  intros Hlat l0 l1. pose proof (rmod2pi_range lon) as R0. fold l0 in R0.
+  assert (Cl : 0 <= cos lat) by (apply cos_ge_0; lra).
+  unfold xyz. apply level1_pick_contains; [apply quad_lt4|].
+  destruct cs; unfold l1, lshift.
+  - rewrite N.add_0_r, N.mod_small by apply quad_lt4.
+    pose proof (quad_signs l0 R0) as S. unfold sgn_ok in *.
+    destruct (quad l0) as [|[[|[]|]|[|[]|]|]]; destruct S; split; nra.
+  - pose proof (rmod2pi_range (l0 + PI)) as R1. pose proof (quad_signs _ R1) as S.
+    destruct (rmod2pi_trig (l0 + PI)) as (Ec & Es). rewrite Ec, Es, neg_cos, neg_sin in S.
+    pose proof (quad_lt4 (rmod2pi (l0 + PI))) as Hq. unfold sgn_ok in *.
+    set (q := quad (rmod2pi (l0 + PI))) in *.
+    assert (q = 0 \/ q = 1 \/ q = 2 \/ q = 3)%N as [E | [E | [E | E]]] by lia; rewrite E in *;
+      cbn in S |- *; destruct S; split; nra.
+Qed.
+
+(* ---- C12, real layer: the repaired lookup returns a tile that contains the point *)
+Theorem lookup_contains_R cs depth lat lon t :
+  - (PI / 2) <= lat <= PI / 2 ->
+  lookup_R cs depth lat lon = Some t ->
+  inU t (xyz lat lon) /\ inQ t (xyz lat lon) /\ pn (tpos t) = depth.
+Proof.
+  intros Hlat. unfold lookup_R, lookup. destruct depth as [|d]; [discriminate|].
+  set (l0 := rmod2pi lon). set (l1 := match cs with Astro => l0 | Planet => rmod2pi (l0 + PI) end).
+  intros H. apply (f_equal (fun o => match o with Some x => x | None => t end)) in H. cbv beta iota in H. subst t.
+  rewrite level1_pick_R. rewrite <- (xyz_rmod lat lon). fold l0.
+  destruct (level1_wfQ cs (quad l1) (quad_lt4 l1)) as (Hq & Hn).
+  assert (J1 : Jinv (xyz lat l0) (level1_pick rbase cs (quad l1))).
+  { split; [assumption|]. split; [apply (level1_contains cs lat lon Hlat)|lia]. }
+  pose proof (descent_all l1 (xyz lat l0) d _ J1) as (Jq & Ju & Jn).
+  split; [assumption|]. split; [apply inU_inQ; assumption|].
+  pose proof (lookup_desc_good vec rbase rmid R is0R gtbR (score_R l1 (xyz lat l0)) cs d
+                (level1_pick rbase cs (quad l1))) as G.
+  assert (Hg : good vec rbase rmid cs (level1_pick rbase cs (quad l1))).
+  { pose proof (quad_lt4 l1) as Hlt. set (q := quad l1) in *.
+    assert (q = 0 \/ q = 1 \/ q = 2 \/ q = 3)%N as [E | [E | [E | E]]] by lia; rewrite E;
+      apply (good_level1 vec rbase rmid cs); destruct cs; cbn; auto. }
+  destruct (G Hg) as (_ & G2). rewrite G2, Hn. reflexivity.
+Qed.
+
+(* longitudes differing by a multiple of 2 pi give the same answer *)
+Theorem lookup_periodic_R cs depth lat lon (k : Z) :
+  lookup_R cs depth lat (lon + IZR k * (2 * PI)) = lookup_R cs depth lat lon.
+Proof. unfold lookup_R. rewrite rmod2pi_period. reflexivity. Qed.
+
+Lemma rmod2pi_id l : 0 <= l < 2 * PI -> rmod2pi l = l.
+Proof.
+  intros (H0 & H2). pose proof PI_RGT_0 as Hpi. unfold rmod2pi.
+  assert (E : 0%Z = Int_part (l / (2 * PI))).
+  { apply Int_part_unique. cbn [IZR]. split.
+    - assert (l / (2 * PI) < 1); [|lra]. apply (Rmult_lt_reg_r (2 * PI)); [lra|]. unfold Rdiv.
+      rewrite Rmult_assoc, Rinv_l by lra. lra.
+    - apply Rmult_le_pos; [lra|]. left. apply Rinv_0_lt_compat. lra. }
+  rewrite <- E. cbn [IZR]. ring.
+Qed.
+
+(* F4: the lookup as coded (level-1 test on lon itself) returns, for the planetary system, a
+   tile that does not contain the point -- witness lat = 0, lon = pi/4, depth 1 *)
+Theorem lookup_planetary_refuted_R :
+  exists lat lon depth t, - (PI / 2) <= lat <= PI / 2 /\
+    lookup_R_coded Planet depth lat lon = Some t /\ ~ inU t (xyz lat lon).
+Proof.
+  pose proof PI_RGT_0 as Hpi.
+  exists 0, (PI / 4), 1%nat, (level1_pick rbase Planet 0). split; [lra|]. split.
+  - unfold lookup_R_coded, lookup. cbn [lookup_desc]. rewrite level1_pick_R.
+    rewrite rmod2pi_id by lra.
+    replace (quad (PI / 4)) with 0%N; [reflexivity|].
+    unfold quad. destruct (Rle_dec (PI / 4) (PI / 2)); [reflexivity|lra].
+  - unfold xyz. rewrite cos_0, sin_0, cos_PI4, sin_PI4.
+    assert (Hs : 0 < 1 / sqrt 2).
+    { apply Rdiv_lt_0_compat; [lra|]. apply sqrt_lt_R0. lra. }
+    generalize dependent (1 / sqrt 2). intros s Hs. clear Hpi. rcompute.
+    intros [(H1 & H2 & H3)|(H1 & H2 & H3)]; lra.
+Qed.
+
+(* ... while for the astronomical system the coded and the repaired lookups coincide *)
+Theorem lookup_coded_astronomical depth lat lon :
+  lookup_R_coded Astro depth lat lon = lookup_R Astro depth lat lon.
+Proof. reflexivity. Qed.
+
+(* ---- C05 latitude clause, the half that is proved: spherical caps smaller than a hemisphere
+   are convex, so a tile whose corners lie in the cap { v | e.v >= m }, m >= 0, has all its
+   pixel centres (and all lattice points of all depths) in that cap.  With e = (0, 1, 0) and
+   e = (0, -1, 0): a tile lying in one hemisphere has |sin lat| of every pixel centre at least
+   the minimum of |sin lat| over its corners (the EQUATORWARD bound).  The poleward bound
+   (pixel latitude <= max corner latitude) is NOT proved here. *)
+Lemma mid_cap_bound e x y m : unit x -> unit y -> 0 < norm2 (vadd x y) -> 0 <= m ->
+  m <= dot e x -> m <= dot e y -> m <= dot e (rmid x y).
+Proof.
+  intros Ux Uy Hn Hm Hx Hy.
+  assert (E : dot e (rmid x y) = (dot e x + dot e y) * / sqrt (norm2 (vadd x y))) by (unfold rmid, inv_norm; vring).
+  rewrite E. set (n := norm2 (vadd x y)) in *.
+  assert (Hn4 : n <= 4).
+  { destruct (unit_dot_le x y Ux Uy) as (B & _). unfold n. unfold unit in *.
+    replace (norm2 (vadd x y)) with (norm2 x + norm2 y + 2 * dot x y) by vring. lra. }
+  assert (Hs2 : sqrt n <= 2).
+  { replace 2 with (sqrt (2 * 2)) by (apply sqrt_square; lra). apply sqrt_le_1_alt. lra. }
+  assert (Hs0 : 0 < sqrt n) by (apply sqrt_lt_R0; assumption).
+  assert (Hi : / 2 <= / sqrt n) by (apply Rinv_le_contravar; assumption).
+  assert (Hsum : 2 * m <= dot e x + dot e y) by lra.
+  assert (0 < / sqrt n) by (apply Rinv_0_lt_compat; assumption).
+  nra.
+Qed.
+
+Definition in_cap (e : vec) (m : R) (t : rtile) : Prop :=
+  wfU t /\ (unit (c_ul t) /\ unit (c_ur t) /\ unit (c_lr t) /\ unit (c_ll t)) /\
+  (m <= dot e (c_ul t) /\ m <= dot e (c_ur t) /\ m <= dot e (c_lr t) /\ m <= dot e (c_ll t)).
+
+Lemma in_cap_child e m (t : rtile) ix iy : 0 <= m -> in_cap e m t -> (ix < 2)%N -> (iy < 2)%N ->
+  in_cap e m (rchild t ix iy).
+Proof.
+  intros Hm (Hw & (Ua & Ub & Uc & Ud) & (Ma & Mb & Mc & Md)) Hx Hy.
+  assert (HwU : wfU (rchild t ix iy)) by (apply child_wfU; assumption).
+  revert HwU.
+  destruct (bit_cases _ Hx) as [-> | ->], (bit_cases _ Hy) as [-> | ->];
+    destruct t as [pos a b c d inc];
+    rewrite ?child_00, ?child_10, ?child_01, ?child_11; unfold in_cap, wfU, ce_of in *; cbn [c_ul c_ur c_lr c_ll incr] in *;
+    destruct inc; destruct Hw as (O1 & O2); intros HwU.
+  all: try (assert (Nab : 0 < norm2 (vadd a b)) by (apply (norm2_add_pos a b d); lra);
+            assert (Nbc : 0 < norm2 (vadd b c)) by (apply (norm2_add_pos b c d); lra);
+            assert (Ncd : 0 < norm2 (vadd c d)) by (apply (norm2_add_pos c d b); replace (det c d b) with (det b c d) by vring; lra);
+            assert (Nda : 0 < norm2 (vadd d a)) by (apply (norm2_add_pos d a b); replace (det d a b) with (det a b d) by vring; lra);
+            assert (Nce : 0 < norm2 (vadd d b)) by (apply (norm2_add_pos d b c); replace (det d b c) with (det b c d) by vring; lra)).
+  all: try (assert (Nab : 0 < norm2 (vadd a b)) by (apply (norm2_add_pos a b c); lra);
+            assert (Nbc : 0 < norm2 (vadd b c)) by (apply (norm2_add_pos b c a); replace (det b c a) with (det a b c) by vring; lra);
+            assert (Ncd : 0 < norm2 (vadd c d)) by (apply (norm2_add_pos c d a); replace (det c d a) with (det a c d) by vring; lra);
+            assert (Nda : 0 < norm2 (vadd d a)) by (apply (norm2_add_pos d a c); replace (det d a c) with (det a c d) by vring; lra);
+            assert (Nce : 0 < norm2 (vadd a c)) by (apply (norm2_add_pos a c d); lra)).
+  all: repeat split; try assumption; try apply HwU; try (apply rmid_unit; assumption);
+       try (apply mid_cap_bound; assumption).
+Qed.
+
+Lemma in_cap_desc e m (t : rtile) : 0 <= m -> in_cap e m t -> forall k x y, in_cap e m (desc rmid t k x y).
+Proof.
+  intros Hm Hc. induction k as [|k IH]; intros x y; cbn [desc]; [assumption|].
+  apply in_cap_child; [assumption|apply IH|apply N.mod_lt; lia|apply N.mod_lt; lia].
+Qed.
+
+Theorem cap_bound_centres e m (t : rtile) k x y : 0 <= m -> in_cap e m t ->
+  m <= dot e (centre rmid (desc rmid t k x y)).
+Proof.
+  intros Hm Hc. pose proof (in_cap_desc e m t Hm Hc k x y) as Hd.
+  destruct (desc rmid t k x y) as [pos a b c d inc].
+  destruct Hd as (Hw & (Ua & Ub & Uc & Ud) & (Ma & Mb & Mc & Md)).
+  unfold centre, wfU in *; cbn [c_ul c_ur c_lr c_ll incr] in *. destruct inc; destruct Hw as (O1 & O2).
+  - apply mid_cap_bound; try assumption.
+    apply (norm2_add_pos d b c). replace (det d b c) with (det b c d) by vring. lra.
+  - apply mid_cap_bound; try assumption.
+    apply (norm2_add_pos a c d). lra.
+Qed.
+
+(* every tile of the pyramid has unit corners *)
+Lemma units_all cs : forall m x y, (x < 2 ^ N.of_nat (S m))%N -> (y < 2 ^ N.of_nat (S m))%N ->
+  let t := rtile_at1 cs m x y in unit (c_ul t) /\ unit (c_ur t) /\ unit (c_lr t) /\ unit (c_ll t).
+Proof.
+  intros m x y Hx Hy.
+  assert (Hq : wfQ (rtile_at1 cs m x y)).
+  { revert x y Hx Hy. induction m as [|m IH]; intros x y Hx Hy.
+    - change (2 ^ N.of_nat 1)%N with 2%N in *.
+      destruct (bit_cases _ Hx) as [-> | ->], (bit_cases _ Hy) as [-> | ->]; destruct cs; rcompute; repeat split; lra.
+    - rewrite pow2_S in Hx, Hy. cbn [tile_at1].
+      apply child_wfQ; [|apply N.mod_lt; lia|apply N.mod_lt; lia].
+      apply IH; apply N.div_lt_upper_bound; lia. }
+  destruct Hq as (A & B & C & D & _). auto.
+Qed.
+
+(* sin(latitude) of a direction is its y coordinate (xyz above).  Equatorward latitude bound for
+   the pixel centres of toast_tile_get_coords, northern and southern form. *)
+Theorem pixel_lat_equatorward cs p i j (m : R) :
+  valid p = true -> (1 <= pn p)%nat -> (i < 256)%N -> (j < 256)%N -> 0 <= m ->
+  let t := rtile_at cs p in
+  let px := eval (tile_coords Mid (tile_at Base Mid cs p) i j) in
+  (m <= vy (c_ul t) /\ m <= vy (c_ur t) /\ m <= vy (c_lr t) /\ m <= vy (c_ll t) -> m <= vy px) /\
+  (vy (c_ul t) <= - m /\ vy (c_ur t) <= - m /\ vy (c_lr t) <= - m /\ vy (c_ll t) <= - m -> vy px <= - m).
+Proof.
+  intros Hv Hn Hi Hj Hm t px.
+  assert (Hw : wfU t /\ (unit (c_ul t) /\ unit (c_ur t) /\ unit (c_lr t) /\ unit (c_ll t))).
+  { unfold t, tile_at. destruct p as [n x y]; cbn [pn Quadtree.px py] in *. destruct n as [|k]; [lia|]. cbn [pred].
+    apply valid_iff in Hv; cbn [pn Quadtree.px py] in Hv. split; [apply wf_all; tauto|apply units_all; tauto]. }
+  assert (Epx : px = centre rmid (desc rmid t 8 j i)).
+  { unfold px. rewrite pixel_is_centre_real by assumption.
+    change 256%N with (2 ^ N.of_nat 8)%N in *. unfold t.
+    rewrite (tile_at_desc vec rbase rmid cs p 8 j i Hn Hj Hi). reflexivity. }
+  rewrite Epx. destruct Hw as (Hw & Hu). split; intros (Ma & Mb & Mc & Md).
+  - pose proof (cap_bound_centres (mkV 0 1 0) m t 8 j i Hm) as B.
+    assert (Ey : forall v, dot (mkV 0 1 0) v = vy v) by (intros; unfold dot; cbn [vx vy vz]; ring).
+    rewrite Ey in B. apply B. unfold in_cap. rewrite !Ey. tauto.
+  - pose proof (cap_bound_centres (mkV 0 (-1) 0) m t 8 j i Hm) as B.
+    assert (Ey : forall v, dot (mkV 0 (-1) 0) v = - vy v) by (intros; unfold dot; cbn [vx vy vz]; ring).
+    rewrite Ey in B. assert (m <= - vy (centre rmid (desc rmid t 8 j i))); [|lra].
+    apply B. unfold in_cap. rewrite !Ey. repeat split; try tauto; lra.
+Qed.
+
+Lemma inQ_iff_inU (t : rtile) p : wfQ t -> (inQ t p <-> inU t p).
+Proof. intros Hq. split; [apply inQ_inU|apply inU_inQ; exact Hq]. Qed.
+
+(* the diamond of Properties.C04.diamond_is_equator really is the equator: y = sin(lat) = 0 *)
+Lemma equatorial_y0 p : equatorial p = true -> vy (eval p) = 0.
+Proof.
+  induction p as [k|a IHa b IHb]; cbn [equatorial eval].
+  - intros H. apply N.ltb_lt in H.
+    assert (k = 0 \/ k = 1 \/ k = 2 \/ k = 3)%N as [-> | [-> | [-> | ->]]] by lia; reflexivity.
+  - intros H. apply andb_true_iff in H. destruct H as (Ha & Hb).
+    unfold rmid, smid, vscale, vadd; cbn [vy]. rewrite (IHa Ha), (IHb Hb). ring.
+Qed.
